@@ -220,7 +220,8 @@ def cargo_build(profile):
         if not os.path.exists(lock):
             import shutil
             shutil.copy(os.path.join(REPO, "Cargo.lock"), lock)
-        cmd = ["cargo", "build", "--offline"] + (["--release"] if profile == "release" else [])
+        import harness_features
+        cmd = ["cargo", "build", "--offline"] + (["--release"] if profile == "release" else []) + harness_features.args(REPO)
         if ALT:
             cmd += ["--config", 'paths=["%s/cao-lang"]' % REPO]
         rc, out = run(cmd, cwd=HARNESS, timeout=3000)
